@@ -174,3 +174,15 @@ package literal
 //@   loop 4: lemma lits[j-1].Complete ==> suffixes.literals[j-1].Complete
 //@   loop 4: lemma forall k :: 0 <= k && k < len(lits[j-1].Bytes) && len(suffixes.literals[j-1].Bytes) - len(lits[j-1].Bytes) + k >= 0 ==> lits[j-1].Bytes[k] == suffixes.literals[j-1].Bytes[len(suffixes.literals[j-1].Bytes) - len(lits[j-1].Bytes) + k]
 //@   loop 4: lemma forall k :: 0 <= k && k < len(lits[j-1].Bytes) && len(suffixes.literals[j-1].Bytes) - len(lits[j-1].Bytes) + k < 0 ==> lits[j-1].Bytes[k] == prefix[len(prefix) + len(suffixes.literals[j-1].Bytes) - len(lits[j-1].Bytes) + k]
+
+// prefix-side length limit: keeps the FIRST MaxLiteralLen bytes (right for prefixes only) and clears Complete
+//@ func (*Extractor).enforceMaxLiteralLen
+//@   props C17
+//@   requires e != nil && s != nil && e.config.MaxLiteralLen >= 0
+//@   modifies s.literals[*]
+//@   ensures len(s.literals) == old(len(s.literals))
+//@   ensures forall i :: 0 <= i && i < len(s.literals) ==> isPre(s.literals[i].Bytes, old(s.literals[i].Bytes)) && len(s.literals[i].Bytes) == ite(old(len(s.literals[i].Bytes)) > e.config.MaxLiteralLen, e.config.MaxLiteralLen, old(len(s.literals[i].Bytes))) && (s.literals[i].Complete <==> (old(s.literals[i].Complete) && old(len(s.literals[i].Bytes)) <= e.config.MaxLiteralLen))
+//@   loop 1: invariant -1 <= rangeindex && rangeindex < rangelen && rangelen == len(s.literals) && s != nil && e != nil && e.config.MaxLiteralLen >= 0
+//@   loop 1: invariant forall i :: 0 <= i && i <= rangeindex ==> isPre(s.literals[i].Bytes, old(s.literals[i].Bytes)) && len(s.literals[i].Bytes) == ite(old(len(s.literals[i].Bytes)) > e.config.MaxLiteralLen, e.config.MaxLiteralLen, old(len(s.literals[i].Bytes))) && (s.literals[i].Complete <==> (old(s.literals[i].Complete) && old(len(s.literals[i].Bytes)) <= e.config.MaxLiteralLen))
+//@   loop 1: invariant forall i :: rangeindex < i && i < len(s.literals) ==> sameslice(s.literals[i].Bytes, old(s.literals[i].Bytes)) && s.literals[i].Complete == old(s.literals[i].Complete)
+//@   loop 1: decreases rangelen - rangeindex
